@@ -34,6 +34,9 @@ def main():
     corpus.run_corpus(ctx)
     try:
         mod.run(ctx)
+    except common.TooManyTimeouts as ex:
+        ctx.violation("oracle", {"issue": "calls into the library do not return (each was given many times what the unchanged code needs): " + str(ex),
+                                 "last_case": getattr(ctx, "last_detail", None)}, site="does-not-return")
     except common.NonFinite as ex:
         # NaN / inf came back from the implementation at a place where every admissible input gives a finite number:
         # that is a failing input of the property, not a fault of the harness
